@@ -473,7 +473,7 @@ func (c *Ctx) loginStamps(refresh *ssa.Function, last string) {
 	// events stamped by expire.Setup
 	stamped := map[int64]bool{}
 	for _, w := range c.wiring {
-		if w.Before || !w.Const || pkgOf(w.In) != "ab/expire" || w.Handler == nil {
+		if w.Before || !w.Const || w.Conditional || pkgOf(w.In) != "ab/expire" || w.Handler == nil {
 			continue
 		}
 		stamps := false
